@@ -137,11 +137,11 @@ type VerifForkView struct {
 	Meta, Split, Join []string
 	Chunks            []VerifChunkView
 	// One entry per enclosing mapped call, outermost first.
-	Parts []VerifForkPart
+	Parts []VerifForkIdPart
 }
 
-// VerifForkPart is one component of a fork id.
-type VerifForkPart struct {
+// VerifForkIdPart is one component of a fork id.
+type VerifForkIdPart struct {
 	CallId string // id of the mapped call statement
 	Kind   string // array | map | unknown | empty
 	Index  int
@@ -204,7 +204,7 @@ func (self *Pipestance) VerifNodes() []VerifNodeView {
 				Join:    f.join_metadata.serializeState().Names,
 			}
 			for _, part := range f.forkId {
-				pv := VerifForkPart{Kind: "unknown"}
+				pv := VerifForkIdPart{Kind: "unknown"}
 				if part.Split != nil && part.Split.Call != nil {
 					pv.CallId = part.Split.Call.Id
 				}
